@@ -258,6 +258,7 @@ def callables_equal(a, b, probe):
 
 def solution_roundtrips(ctx, stop_first=False):
     first = None
+    prev_copy = None
     dev = zoo.make_device("bar", ctx.rng, max_edge_length=1.0)
     combos = list(itertools.product(range(len(option_sets(ctx.rng, ctx.quick))), range(len(drive_sets()))))
     if ctx.quick:
@@ -343,6 +344,24 @@ def solution_roundtrips(ctx, stop_first=False):
         again = tdgl.Solution.from_hdf5(p2)
         if not again.equals(sol) or again.options != sol.options:
             fail("solution-copy", "solution saved to a new file does not load back equal")
+        # saving over a file that already holds ANOTHER solution (the copy of the previous configuration): what
+        # loads back is this solution, at every recorded step
+        if prev_copy is not None:
+            ctx.count("saves_over_an_existing_file")
+            try:
+                sol.to_hdf5(prev_copy)
+                over = tdgl.Solution.from_hdf5(prev_copy)
+                lo_, hi_ = over.data_range
+                okd = (lo_, hi_) == (lo, hi) and arr_eq(over.dynamics.dt, sol.dynamics.dt)
+                for step in ((lo, hi) if okd else ()):
+                    sol.solve_step = step
+                    over.solve_step = step
+                    okd = okd and arr_eq(sol.tdgl_data.psi, over.tdgl_data.psi) and arr_eq(sol.tdgl_data.mu, over.tdgl_data.mu)
+                if not okd or not over.equals(sol) or over.options != sol.options:
+                    fail("solution-save-over-existing", f"a solution saved over a file that held another solution does not load back unchanged (steps read back {lo_}..{hi_}, saved {lo}..{hi})")
+            except Exception as e:  # noqa
+                fail("solution-save-over-existing", f"saving over an existing file / loading it back raised {type(e).__name__}: {str(e)[:100]}")
+        prev_copy = p2
         # the solution outlives its file: delete the HDF5 file, save what is in memory to a new file, load it back
         try:
             keep_step = sol.solve_step
